@@ -247,7 +247,7 @@ Section Machine.
   Definition current (w : world) : list dfile := match w_snaps w with s :: _ => s | [] => [] end.
   Definition cache_of (w : world) (h : Z) : cache := match lookup h (w_caches w) with Some c => c | None => [] end.
 
-  Inductive outcome := Accepted | RejNoSchema | RejSchema | RejRecords | RejConvert | RejCommit.
+  Inductive outcome := Accepted | RejNoSchema | RejSchema | RejRecords | RejConvert | RejCommit | RejFile.
 
   (* Table.append_records(records, schema=arg) through handle h; commit_ok = false models a commit
      that fails before the commit point (conflict retries exhausted, storage error): _rollback. *)
@@ -267,26 +267,37 @@ Section Machine.
 
   Definition remove (x : Z) (l : list Z) : list Z := filter (fun y => negb (y =? x)) l.
 
+  (* append_data queues the file it has just written through append_files, which re-checks the file's footer
+     against the Arrow schema the handle derives for the TABLE schema (_validate_file_schema) -- through the same
+     cache; a legacy table has nothing to check against *)
+  Definition recheck (t : option ischema) (c : cache) (a : aschema) : cache * bool :=
+    match t with
+    | Some ts => let (a2, c2) := create_arrow_schema c ts in (c2, aschema_eqb a a2)
+    | None => (c, true)
+    end.
+
   Definition step (w : world) (e : event) : world * outcome :=
     match resolve (w_schema w) (e_arg e) with
     | inr o => (w, o)
     | inl s =>
       if negb (forallb (validate_record (sfields s)) (e_recs e)) then (w, RejRecords) else
       let (a, c') := create_arrow_schema (cache_of w (e_handle e)) s in
-      let w1 := set_cache w (e_handle e) c' in
       match convert a (e_recs e) with
-      | None => (w1, RejConvert)
+      | None => (set_cache w (e_handle e) c', RejConvert)
       | Some rows =>
         let (lo, hi) := bounds_for (sfields s) a rows in
         let f := {| df_id := w_next w; df_arrow := a; df_rows := rows; df_lo := lo; df_hi := hi |} in
-        (* the data file is written, then the commit either publishes a snapshot or rolls back *)
+        (* the data file is written and re-checked; then the commit either publishes a snapshot or rolls back *)
+        let (c2, ok) := recheck (w_schema w) c' a in
+        let w1 := set_cache w (e_handle e) c2 in
         let written := w_next w :: w_store w1 in
-        if e_commit_ok e then
+        if ok && e_commit_ok e then
           ({| w_schema := w_schema w1; w_snaps := (current w1 ++ [f]) :: w_snaps w1;
               w_store := written; w_next := w_next w + 1; w_caches := w_caches w1 |}, Accepted)
         else
           ({| w_schema := w_schema w1; w_snaps := w_snaps w1;
-              w_store := remove (w_next w) written; w_next := w_next w + 1; w_caches := w_caches w1 |}, RejCommit)
+              w_store := remove (w_next w) written; w_next := w_next w + 1; w_caches := w_caches w1 |},
+           if ok then RejCommit else RejFile)
       end
     end.
 
